@@ -8,6 +8,7 @@ import (
 	"crypto/sha256"
 	"encoding/hex"
 	"encoding/pem"
+	"errors"
 	"fmt"
 	"io"
 	"net/http"
@@ -181,7 +182,16 @@ type Instance struct {
 	// yielding the processor in between (like a slow network peer). It widens the window in which a
 	// handler that hands out shared or recycled buffers is observable.
 	SlowWriter bool
+	// FailWrites makes every Write of the in-process ResponseWriter fail (the client hung up).
+	FailWrites bool
 }
+
+// brokenWriter is a ResponseWriter whose peer has gone away.
+type brokenWriter struct {
+	*httptest.ResponseRecorder
+}
+
+func (w brokenWriter) Write(b []byte) (int, error) { return 0, errors.New("write: broken pipe") }
 
 // slowWriter copies writes chunk by chunk into the recorder, yielding between chunks.
 type slowWriter struct {
@@ -286,7 +296,9 @@ func (i *Instance) Do(ctx context.Context, method, path, rawQuery string, body [
 		req = req.WithContext(ctx)
 	}
 	w := httptest.NewRecorder()
-	if i.SlowWriter {
+	if i.FailWrites {
+		h.ServeHTTP(brokenWriter{w}, req)
+	} else if i.SlowWriter {
 		h.ServeHTTP(slowWriter{w}, req)
 	} else {
 		h.ServeHTTP(w, req)
